@@ -1,1 +1,65 @@
-//! Verification hooks: sched (see verif/mod.rs).
+//! Verification hooks: a recorder for what the client handed to the core and for the choices of a
+//! scheduling round that depend on the MILP solver or on hash-map iteration order.
+//!
+//! The production code calls `record(..)` at a few places (each call site is a single statement
+//! guarded by `#[cfg(it4innovations_hyperqueue_verif)]`); the harness drains the log with `take()`.
+use std::cell::RefCell;
+
+use crate::TaskId;
+
+#[derive(Debug, Clone)]
+pub struct RecNewTask {
+    pub id: TaskId,
+    pub rq: u32,
+    pub user_priority: i64,
+    /// "N" never restart, "U" unlimited, number = MaxCrashes
+    pub crash_limit: String,
+    pub time_limit_ms: Option<u64>,
+    pub deps: Vec<TaskId>,
+    pub instance: u32,
+    pub crashes: u32,
+}
+
+#[derive(Debug, Clone)]
+pub struct RecRqEntry {
+    pub resource: u32,
+    /// None = `all`
+    pub amount: Option<u64>,
+}
+
+#[derive(Debug, Clone)]
+pub struct RecRq {
+    pub n_nodes: u32,
+    pub min_time_ms: u64,
+    pub entries: Vec<RecRqEntry>,
+}
+
+#[derive(Debug, Clone)]
+pub enum Record {
+    NewTasks(Vec<RecNewTask>),
+    Cancel(Vec<TaskId>),
+    NewRq(u32, Vec<RecRq>),
+    /// one entry of `solution.sn_counts` in iteration order, with the ids `take_tasks` returned
+    Sn {
+        rq: u32,
+        variant: u32,
+        counts: Vec<(u32, u32)>,
+        taken: Vec<TaskId>,
+    },
+    /// one entry of `solution.mn_workers`
+    Mn { rq: u32, sets: Vec<Vec<u32>> },
+    /// order in which proactive filling visited the candidate workers of a queue
+    PrefillOrder { rq: u32, workers: Vec<u32> },
+}
+
+thread_local! {
+    static LOG: RefCell<Vec<Record>> = const { RefCell::new(Vec::new()) };
+}
+
+pub fn record(r: Record) {
+    LOG.with(|l| l.borrow_mut().push(r));
+}
+
+pub fn take() -> Vec<Record> {
+    LOG.with(|l| std::mem::take(&mut *l.borrow_mut()))
+}
